@@ -192,6 +192,25 @@ def gen_coll(rng, maxn, maxk):
         gs.append(mul(*pad(gs[:2])))                   # product of two members
     return ",".join(gs) or "-"
 
+# ---- strings handed out by earlier calls (enumerations, commutants, factory results) are edited in place, then the
+# question is asked on a freshly built collection: the answer must not depend on what happened to those objects
+def polluted_handle(line):
+    import pollute
+    _, seed, rest = line.split(" ", 2)
+    t = rest.split(" ")
+    members = pad(impl_graph.strs(t[-1] if t[0] != "graph" else t[1]))
+    n = max((len(x) for x in members), default=1)
+    try:
+        pollute.pollute(n, seed, members)
+    except Exception as e:
+        return exc_name(e)
+    return impl_graph.handle(rest)
+
+def oracle_polluted(line, out):
+    rest = line.split(" ", 2)[2]
+    why = oracle(rest, out)
+    return f"after in-place edits of strings handed out by earlier calls: {why}" if why else None
+
 def build_streams(rng, tier):
     th = tier == "thorough"
     L = []
@@ -230,6 +249,12 @@ def build_streams(rng, tier):
                     continue
                 c = ",".join(combo) or "-"
                 tiny += [f"graph {c} -", f"subgraphs {c}", f"commutants {c}", f"cgraph {c}", f"pairs {c}", f"components commutator {c}"]
+    PO = []
+    for j in range(120 if th else 40):
+        c = gen_coll(rng, 3, 4)
+        PO += [f"pol {j} commutants {c}", f"pol {j} cgraph {c}", f"pol {j} components commutator {c}", f"pol {j} graph {c} -"]
+    for j in range(6 if th else 2):
+        PO.append(f"pol {j} commutants {gen_coll(rng, 4, 3)}")
     h = impl_graph.handle
     tag = lambda l, o: l.split(" ")[0] + (":err" if o.startswith("!") else "")
     return [
@@ -239,6 +264,8 @@ def build_streams(rng, tier):
         Stream("commutants-and-commutator-graphs", S, h, oracle, tag=tag, nontrivial=lambda l, o: "E=-" not in o),
         Stream("graph-queries-after-edit-histories", H, IC.handle, oracle_hist, tag=lambda l, o: "hist" + (":err" if "!" in o else ""),
                nontrivial=lambda l, o: any(x.split(":")[0] in ("rep", "con", "rem", "del", "exp", "sort") for x in l.split(" ")[2].split(";"))),
+        Stream("queries-after-in-place-edits-of-handed-out-strings", PO, polluted_handle, oracle_polluted, model=False,
+               tag=lambda l, o: "polluted:" + l.split(" ")[2] + (":err" if o.startswith("!") else "")),
     ] + _extra().extra_streams(rng, tier)
 
 RULE = ("random collections on 1..6 qubits (0..8 members; duplicates, mixed lengths, identity, products of members), every "
@@ -255,6 +282,14 @@ def main(tier):
 
 def replay(path):
     r = json.load(open(path)); line = r.get("line")
+    if line.startswith("pol "):
+        out = polluted_handle(line); why = oracle_polluted(line, out)
+        print("line:", line); print("implementation:", out[:500]); print("oracle:", why or "holds")
+        return 1 if why else 0
+    if line.startswith("hist "):
+        out = IC.handle(line); why = oracle_hist(line, out)
+        print("line:", line); print("implementation:", out[:500]); print("oracle:", why or "holds")
+        return 1 if why else 0
     out = impl_graph.handle(line); why = oracle(line, out)
     print("line:", line); print("implementation:", out[:500]); print("model:", run_model([line])[0][:500]); print("oracle:", why or "holds")
     return 1 if why else 0
